@@ -513,7 +513,7 @@ pub open spec fn sharded_frame(old: World, fin: World, root: PathV, n: usize, na
         f = u.under_contract(im.sub(['fn ' + opname]), ['C11', 'C12', 'C16', 'C17', 'C15', 'C18', 'C05', 'C01', 'C02', 'C03', 'C10', 'C06', 'C20'])
         f.air = 'sharded::Cache::' + opname
         f.add_param(W)
-        f.add_arg('shard . file_exists', TW)
+        f.thread(['shard . file_exists'])
         f.add_arg('shard . ' + opname, TW)
         f.add_arg('self . maintain_random_other_shard', TW)
         f.add_arg('self . force_maintain_shard', TW)
